@@ -720,6 +720,15 @@ def walk_events(evs):
             yield from walk_events(e[4])
 
 
+def MODEL_HAS_OVERRIDE():
+    """the `override` field of `Graph` (host variants for optional modules) exists in the model being built against"""
+    try:
+        with open(os.path.join(VERIF, "lean", "IofloModel", "Model", "Imports.lean")) as f:
+            return "override : Option (Mod × Node)" in f.read()
+    except OSError:
+        return True
+
+
 def optional_sites(bodies):
     """{optional module: [modules of the tree that try to import it]}: `import X [as y]` of a non-ioflo top-level
     module directly inside a `try` that has handlers (whatever they catch: that is the point of the check)"""
@@ -1123,9 +1132,9 @@ def lean_text(g):
         out.append("def c%d : List Node := %s" % (c, L("n%d" % i for i in range(c * CH, min(len(names), (c + 1) * CH)))))
     out.append("def nodes : List (List Node) := %s" % L("c%d" % c for c in range(nchunks)))
     bset = set(g["builtins"])
-    out.append("def graph : Graph := { nodes := nodes, chunk := %d, nNodes := %d, preloaded := %s, builtins := %d, "
-               "nMN := %d, nRel := %d, nHi := %d, publicLo := %d, publicHi := %d, pathName := %d, allName := %d, domain := %s, "
-               "override := none }" % (
+    out.append(("def graph : Graph := { nodes := nodes, chunk := %d, nNodes := %d, preloaded := %s, builtins := %d, "
+               "nMN := %d, nRel := %d, nHi := %d, publicLo := %d, publicHi := %d, pathName := %d, allName := %d, domain := %s"
+               + (", override := none }" if MODEL_HAS_OVERRIDE() else " }")) % (
                    CH, len(names), L(str(nid[m]) for m in sorted(g["preloaded"], key=lambda m: nid[m])),
                    mask(lambda s_: s_ in bset, 0, len(idents)), n_mn, n_rel, len(idents) - n_rel,
                    mask(lambda s_: not s_.startswith("_"), 0, n_rel), mask(lambda s_: not s_.startswith("_"), n_rel, len(idents)),
